@@ -49,6 +49,7 @@ structure St where
   ab : List Nat         -- asset balances of accounts 0..5 (5 = the vault router)
   lb : List Nat         -- LP balances of accounts 0..3
   assetSupply : Nat     -- total supply of the vault asset (ghost for native, real for cw20)
+  sent : Nat            -- GHOST: total protocol fees ever transferred to the fee collector by collections
 deriving Repr, DecidableEq
 
 /-- `Fee::compute` on a Uint128 loan amount (fits: share < 1) -/
@@ -133,7 +134,7 @@ def withdraw (s : St) (who lp : Nat) : Option St :=
   if withdrawOk s who lp then some (withdrawRes s who lp) else none
 
 def collectRes (s : St) : St :=
-  { s with bal := s.bal - s.pend, ab := setN s.ab 4 (getN s.ab 4 + s.pend), pend := 0 }
+  { s with bal := s.bal - s.pend, ab := setN s.ab 4 (getN s.ab 4 + s.pend), pend := 0, sent := s.sent + s.pend }
 
 /-- `collect_protocol_fees` (anyone): pending fees go to the collector (account 4);
     nothing is sent when nothing is pending -/
@@ -318,6 +319,6 @@ def reach (s : St) (ops : List Op) : St := ops.foldl apply s
 def init (kind : Nat) (f : VFees) (ab : List Nat) : St :=
   { kind := kind, bal := 0, pend := 0, allTime := 0, burned := 0, sup := 0, lpVault := 0, ctr := 0,
     fees := f, depOn := true, wdOn := true, flOn := true, ab := ab, lb := [0, 0, 0, 0],
-    assetSupply := ab.foldl (· + ·) 0 }
+    assetSupply := ab.foldl (· + ·) 0, sent := 0 }
 
 end WW.Vault
